@@ -221,7 +221,10 @@ ZOO_ATTRS = {
 # ----------------------------------------------------------------------------- schema
 
 SDL = '''
+directive @custom(n: Int!, s: String = "x", inp: Inp, l: [Int!]) repeatable on QUERY | MUTATION | SUBSCRIPTION | FIELD | FRAGMENT_DEFINITION | FRAGMENT_SPREAD | INLINE_FRAGMENT | VARIABLE_DEFINITION
 enum Color { RED GREEN }
+union Thing = Node | Other
+type Other { y: Int name: String }
 input Inp { req: Int!, opt: String = "d", nested: Inp, list: [Int!] }
 scalar Odd
 interface Named { name: String }
@@ -234,6 +237,7 @@ type Node implements Named {
   strict: [Node!]!
   odd: Odd
   named: Named
+  thing: Thing
   color(c: Color = RED): Color
   args(i: Int, s: String, b: Boolean, c: Color, inp: Inp, l: [Int], f: Float, id: ID): String
 }
@@ -247,14 +251,18 @@ type Query {
   odd: Odd
   args(i: Int, s: String, b: Boolean, c: Color, inp: Inp, l: [Int], f: Float, id: ID, req: Int! = 1): String
   oddArg(o: Odd, l: [Odd!]): String
+  u: Thing
+  things: [Thing]
 }
-type Mutation { m(i: Int): String  n: Node }
+type Mutation { m(i: Int): String  n: Node  big(v: Inp): String }
+type Subscription { a: String  tick: Int  o: Node  things: [Thing] }
 '''
 
 RAISABLE = [
     "Query.a", "Query.nn", "Query.o", "Query.l", "Query.strict", "Query.named", "Query.odd", "Query.args",
     "Node.id", "Node.name", "Node.nn", "Node.child", "Node.kids", "Node.strict", "Node.odd", "Node.named",
     "Node.color", "Node.args", "Mutation.m", "Mutation.n", "__resolve_type", "__serialize",
+    "Query.u", "Query.things", "Node.thing", "Subscription.a", "Subscription.o",
 ]
 # custom scalar input coercion (variables / literals): plain exception classes only
 SCALAR_RAISABLE = ["__parse_value", "__parse_literal"]
@@ -269,7 +277,7 @@ class _Cur:
     zoo = {}
 
 
-_SCHEMA = None
+_SCHEMAS = {}
 
 
 def _node(depth=0):
@@ -284,6 +292,8 @@ def _resolver(key, kind):
             raise _Cur.zoo[name]()
         if kind == "str":
             return "v"
+        if kind == "int":
+            return 1
         if kind == "node":
             return _node()
         if kind == "nodes":
@@ -297,20 +307,24 @@ def _resolver(key, kind):
     return resolve
 
 
-def make_schema():
-    """Built once per process; resolvers read the per-case state from `_Cur`."""
-    global _SCHEMA
-    if _SCHEMA is not None:
-        return _SCHEMA
-    from graphql import build_schema
+def make_schema(variant="plain"):
+    """Built once per process and variant; resolvers read the per-case state from `_Cur`.
+    variant "incremental" additionally declares the @defer / @stream directives."""
+    if variant in _SCHEMAS:
+        return _SCHEMAS[variant]
+    from graphql import GraphQLDeferDirective, GraphQLSchema, GraphQLStreamDirective, build_schema
 
     schema = build_schema(SDL)
+    if variant == "incremental":
+        kwargs = schema.to_kwargs()
+        kwargs["directives"] = tuple(kwargs["directives"]) + (GraphQLDeferDirective, GraphQLStreamDirective)
+        schema = GraphQLSchema(**kwargs)
     kinds = {
         "a": "str", "nn": "str", "o": "node", "l": "nodes", "strict": "nodes", "named": "node", "odd": "odd",
         "args": "str", "id": "str", "name": "str", "child": "node", "kids": "nodes", "color": "color", "m": "str",
-        "n": "node",
+        "n": "node", "u": "node", "things": "nodes", "thing": "node", "tick": "int", "y": "int", "big": "str",
     }
-    for tname in ("Query", "Node", "Mutation"):
+    for tname in ("Query", "Node", "Mutation", "Subscription", "Other"):
         t = schema.type_map[tname]
         for fname, f in t.fields.items():
             f.resolve = _resolver(f"{tname}.{fname}", kinds.get(fname, "str"))
@@ -323,6 +337,7 @@ def make_schema():
         return "Node"
 
     schema.type_map["Named"].resolve_type = resolve_type
+    schema.type_map["Thing"].resolve_type = resolve_type
 
     def serialize(value):
         name = _Cur.raisers.get("__serialize")
@@ -351,7 +366,7 @@ def make_schema():
 
     schema.type_map["Odd"].parse_value = parse_value
     schema.type_map["Odd"].parse_literal = parse_literal
-    _SCHEMA = schema
+    _SCHEMAS[variant] = schema
     return schema
 
 
@@ -432,8 +447,10 @@ VAR_ZOO = [
     None, True, False, 0, -1, 1, 2**31, -(2**31) - 1, 2**70, 1.5, "__nan__", "__inf__", "", "x", "RED", "BLUE",
     {"__cps__": [0xD800]}, [], [1, 2], [1, None, "x"], [[1]], {}, {"req": 1}, {"req": None}, {"req": 1, "extra": 2},
     {"req": 1, "nested": {"req": 2}}, {"opt": "x"}, {"req": "1"}, {"req": 1.0}, {"req": 1, "list": [1, None]},
+    "\u0130", {"\u0130": 1}, {"req": 1, "\u00df": 2}, {"req": 1, "nested": {"\u01c5": 1}}, {"__bigint__": 5000}, {"req": {"__bigint__": 4400}},
+    {"": 1}, {"REQ": 1}, ["\u0130", "RED"],
 ]
-VAR_NAMES = ["i", "s", "b", "c", "inp", "l", "o", "x", "", "a b", "\u00e9", "$i", "__proto__"]
+VAR_NAMES = ["i", "s", "b", "c", "inp", "l", "o", "x", "", "a b", "\u00e9", "$i", "__proto__", "\u0130", "I", "INP"]
 OP_NAMES = [None] * 14 + ["A", "A", "B", "Q", "M", "Nope", "", "a b", "\ud800"]
 
 
@@ -578,7 +595,17 @@ def encode_json(v) -> str:
     return "x:" + re.sub(r"\W", "_", type(v).__name__)
 
 
+def _decode_key(k):
+    if isinstance(k, dict):
+        if "__cps__" in k:
+            return "".join(chr(c) for c in k["__cps__"])
+        kind = k.get("__key__")
+        return {"int": k.get("v"), "float": k.get("v"), "none": None, "tuple": ("t",), "bool": True, "bytes": b"k"}.get(kind, kind)
+    return k
+
+
 def _decode_var(v):
+    """JSON case description -> the Python value (NaN/inf, lone surrogates, huge ints, non-JSON dict keys)."""
     if v == "__nan__":
         return float("nan")
     if v == "__inf__":
@@ -586,15 +613,139 @@ def _decode_var(v):
     if isinstance(v, dict):
         if set(v) == {"__cps__"}:
             return "".join(chr(c) for c in v["__cps__"])
+        if set(v) == {"__bigint__"}:
+            return 10 ** v["__bigint__"] - 1
+        if set(v) == {"__items__"}:
+            return {_decode_key(k): _decode_var(x) for k, x in v["__items__"]}
         return {k: _decode_var(x) for k, x in v.items()}
     if isinstance(v, list):
         return [_decode_var(x) for x in v]
     return v
 
 
+def _has_nonstr_key(v):
+    if isinstance(v, dict):
+        return any(not isinstance(k, str) or _has_nonstr_key(x) for k, x in v.items())
+    if isinstance(v, (list, tuple)):
+        return any(_has_nonstr_key(x) for x in v)
+    return False
+
+
+def bracket_nesting(source: str) -> int:
+    """maximal nesting of { [ ( in the token stream (strings and comments excluded); -1 if it does not lex"""
+    from graphql.language import Lexer, Source, TokenKind
+
+    depth = best = 0
+    try:
+        lexer = Lexer(Source(source))
+        while True:
+            t = lexer.advance()
+            if t.kind in (TokenKind.BRACE_L, TokenKind.BRACKET_L, TokenKind.PAREN_L):
+                depth += 1
+                best = max(best, depth)
+            elif t.kind in (TokenKind.BRACE_R, TokenKind.BRACKET_R, TokenKind.PAREN_R):
+                depth -= 1
+            elif t.kind == TokenKind.EOF:
+                return best
+    except Exception:  # noqa: BLE001
+        return -1
+
+
+def fragment_chain_depth(doc) -> int:
+    """length of the longest chain of fragment spreads F0 -> F1 -> ... (cycles cut); iterative on purpose"""
+    from graphql.language import FragmentDefinitionNode, FragmentSpreadNode
+
+    def spreads(sel_set):
+        out, stack = [], [sel_set]
+        while stack:
+            ss = stack.pop()
+            if ss is None:
+                continue
+            for sel in ss.selections:
+                if isinstance(sel, FragmentSpreadNode):
+                    out.append(sel.name.value)
+                else:
+                    stack.append(getattr(sel, "selection_set", None))
+        return out
+
+    graph = {d.name.value: spreads(d.selection_set) for d in doc.definitions if isinstance(d, FragmentDefinitionNode)}
+    depth = {}
+    for start in graph:
+        if start in depth:
+            continue
+        stack = [(start, iter(graph.get(start, ())))]
+        on_path = {start}
+        while stack:
+            node, it = stack[-1]
+            advanced = False
+            for nxt in it:
+                if nxt in graph and nxt not in depth and nxt not in on_path:
+                    stack.append((nxt, iter(graph[nxt])))
+                    on_path.add(nxt)
+                    advanced = True
+                    break
+            if not advanced:
+                depth[node] = 1 + max((depth.get(n, 0) for n in graph.get(node, ())), default=0)
+                on_path.discard(node)
+                stack.pop()
+    return max(depth.values(), default=0)
+
+
+def escape_fingerprint(exc, source, doc, case, default):
+    """The kind of escaping exception: RecursionError caused by a fragment-spread chain deeper than 150 in a
+    document whose bracket nesting is within the property's bound of 100 is the known finding; nothing else is."""
+    if isinstance(exc, RecursionError):
+        nest = bracket_nesting(source)
+        if doc is None:
+            try:
+                from graphql import parse
+
+                doc = parse(source)
+            except Exception:  # noqa: BLE001
+                doc = None
+        chain = fragment_chain_depth(doc) if doc is not None else 0
+        if 0 <= nest <= 100 and chain > 150:
+            return "recursionerror:fragment-spread-chain-depth"
+        if nest > 100:
+            return "recursionerror:bracket-nesting-above-100"
+        return "recursionerror:" + default
+    if default.startswith("located_error:"):
+        return default
+    files = _tb_files(exc)
+    if _has_nonstr_key(_decode_var(case.get("variables"))):
+        return "graphql_sync-raises:non-str-variable-key"
+    if isinstance(exc, ValueError) and "integer string conversion" in _exc_text(exc):
+        return "valueerror:digit-run-over-int-str-limit"
+    if isinstance(exc, IndexError) and "suggestion_list.py" in files:
+        return "indexerror:suggestion-lower-lengthens-key"
+    if isinstance(exc, AttributeError) and "stream_directive_on_list_field.py" in files:
+        return "attributeerror:stream-on-meta-field-under-union"
+    if type(exc).__name__ in ("GraphQLError",) and "single_field_subscriptions.py" in files:
+        return "validate-raises:directive-args-on-subscription"
+    return f"{default}:{type(exc).__name__}"
+
+
+def _tb_files(exc):
+    """base names of the source files on the traceback of an escaped exception (part of the run's observation)"""
+    import os
+    import traceback
+
+    try:
+        return {os.path.basename(fr.filename) for fr in traceback.extract_tb(exc.__traceback__)}
+    except Exception:  # noqa: BLE001
+        return set()
+
+
+def _exc_text(exc):
+    try:
+        return str(exc)[:500]
+    except Exception:  # noqa: BLE001
+        return ""
+
+
 def _safe_str(e):
     try:
-        return f"{type(e).__name__}: {e}"[:200]
+        return f"{type(e).__name__}: {str(e)[:300]}"[:200]
     except Exception:  # noqa: BLE001
         return f"{type(e).__name__}: <str() raises>"
 
@@ -617,7 +768,6 @@ def run(cases):
 
     plain, hostile = _zoo()
     _Cur.zoo = {**plain, **hostile}
-    schema = make_schema()
     out = {"evaluations": 0, "nontrivial": 0, "failures": [], "wf": [], "stats": {}, "samples": []}
     st = out["stats"]
 
@@ -633,12 +783,16 @@ def run(cases):
             return repr(v)[:400]
 
     def fail(fp, what, case, observed, expected, src):
+        if fp == "recursionerror:bracket-nesting-above-100":
+            bump("out-of-scope:bracket-nesting-above-100")  # the property bounds bracket nesting at 100
+            return
         out["failures"].append({"fingerprint": fp, "what": what, "input": {"kind": "pipeline", "case": case},
                                 "observed": safe(observed), "expected": safe(expected), "source": src})
 
     for idx, case in enumerate(cases):
         source = "".join(chr(c) for c in case["source_cps"])
         variables = _decode_var(case["variables"])
+        schema = make_schema(case.get("schema", "plain"))
         _Cur.raisers = dict(case["raisers"])
         _Cur.log = []
         out["evaluations"] += 1
@@ -656,7 +810,9 @@ def run(cases):
             pre = 1
             bump("parse-failures")
         except Exception as e:  # noqa: BLE001
-            fail("parse-raises-non-syntax-error", "parse() raises something else than GraphQLSyntaxError", case,
+            fp_parse = escape_fingerprint(e, source, None, case, "x") if isinstance(e, RecursionError) else ""
+            fail(fp_parse if fp_parse == "recursionerror:bracket-nesting-above-100" else "parse-raises-non-syntax-error",
+                 "parse() raises something else than GraphQLSyntaxError", case,
                  _safe_str(e), "GraphQLSyntaxError or a document", "C01 parse_no_crash")
             continue
         if doc is not None:
@@ -665,13 +821,21 @@ def run(cases):
                     pre = 2
                     bump("validation-failures")
             except Exception as e:  # noqa: BLE001
-                fail("validate-raises", "validate() raises on a parsed document", case, _safe_str(e), "a list of errors",
-                     "C01 response_wf (stage hypothesis: validate returns a list)")
+                fail(escape_fingerprint(e, source, doc, case, "validate-raises"), "validate() raises on a parsed document", case, _safe_str(e),
+                     "a list of errors", "C01 response_wf (stage hypothesis: validate returns a list)")
                 continue
+        if case.get("schema") == "incremental":
+            # `execute` refuses a schema that declares @defer/@stream (a configuration error, raised for every request):
+            # for this variant the oracle is the validation stage only
+            bump("incremental-schema-validate-only")
+            if pre:
+                out["nontrivial"] += 1
+            continue
         try:
             result = graphql_sync(schema, source, variable_values=variables, operation_name=case["operation_name"], **options)
         except Exception as e:  # noqa: BLE001
-            fail(fp_escape, "graphql_sync raises", case, _safe_str(e), "an ExecutionResult", "C01 response_wf / resolver_raise_located")
+            fail(escape_fingerprint(e, source, doc, case, fp_escape), "graphql_sync raises", case, _safe_str(e), "an ExecutionResult",
+                 "C01 response_wf / resolver_raise_located")
             bump("escaped")
             continue
         log = list(_Cur.log)
@@ -709,14 +873,15 @@ def run(cases):
                 want = OWN_PATH.get(name, path)
                 found = [e for e in errors if e.path == want]
                 if key == "__resolve_type" and not found:
-                    found = [e for e in errors if e.path == path]
+                    # resolve_type sees the path of the field; for a list field the error sits on the item
+                    found = [e for e in errors if e.path and e.path[: len(path)] == path]
             if not found:
                 fail(fp, f"exception {name} raised by {key} at path {path} does not surface as an error with that path", case,
                      formatted, {"path": OWN_PATH.get(name, path)}, "C01 resolver_raise_located")
                 continue
             if not all(isinstance(e.message, str) for e in found):
                 fail(fp, "located error has a non-str message", case, formatted, "str message", "C01 resolver_raise_located")
-            if path is not None and name not in OWN_PATH and result.data is not None:
+            if path is not None and name not in OWN_PATH and result.data is not None and key != "__resolve_type":
                 where, val = _walk(result.data, path)
                 if where == "at" and val is not None:
                     fail(fp, "the field that raised is not null in data", case, formatted, "null at the error path", "C01 resolver_raise_located")
